@@ -9,8 +9,8 @@ from . import common as C
 PROPS = ['C01', 'C04', 'C05', 'C07', 'C08']
 
 # constants of the model that mirror the current /repo (pinned by the conformance step)
-MODEL_CONSTANTS = dict(MinWait=3, HeadReliefChecksProc='TRUE', TooBigUsesTotal='TRUE', EarlyByShardCount='TRUE', TailNeedsEmpty='TRUE')
-PINNED_CONSTANTS = dict(MinWait=0, HeadReliefChecksProc='FALSE', TooBigUsesTotal='FALSE', EarlyByShardCount='FALSE', TailNeedsEmpty='FALSE')
+MODEL_CONSTANTS = dict(MinWait=3, HeadReliefChecksProc='TRUE', TooBigUsesTotal='TRUE', EarlyByShardCount='TRUE', TailNeedsEmpty='TRUE', TooBigFirst='TRUE')
+PINNED_CONSTANTS = dict(MinWait=0, HeadReliefChecksProc='FALSE', TooBigUsesTotal='FALSE', EarlyByShardCount='FALSE', TailNeedsEmpty='FALSE', TooBigFirst='FALSE')
 
 MODES = ['ok', 'notready', 'statusfail', 'rtfail', 'pushfail', 'rt2fail', 'stale', 'pushok']
 HEALTH = ['up', 'down', 'unknown']
@@ -25,27 +25,79 @@ def mk_entry(rnd, t, maxHead, maxProc, rich=True):
 
 
 def gen_input(rnd, idn, maxN=3, maxK=3):
-    n = rnd.choice([1, 2, 2, 3, 3, 3] if maxN == 3 else [1, 2, 3, 3, 4, 4])
-    n = min(n, maxN)
+    """One cycle input.  A family biases the draw towards one mechanism (the plain family is the
+    unbiased mixture); every family still randomises everything else."""
+    fam = rnd.choice(['plain', 'plain', 'scaledown', 'scaledown', 'relief', 'oversized', 'handover', 'unsynced'])
+    n = min(maxN, rnd.choice([1, 2, 2, 3, 3, 3] if maxN == 3 else [1, 2, 3, 3, 4, 4]))
+    if fam in ('scaledown', 'unsynced', 'relief'):
+        n = min(maxN, rnd.choice([2, 3, 3, maxN]))
     k = rnd.randint(1, maxK)
     targets = list(range(1, k + 1))
     maxHead = rnd.choice([0, 10, 10, 10])
     maxProc = rnd.choice([20, 20, 30])
+    maxIdle = rnd.choice([0, 1, 1])
+    if fam == 'scaledown':
+        maxIdle = 1
     opts = dict(maxHead=maxHead, maxProc=maxProc,
                 minShard=rnd.choice([0, 0, 1, 1, 2, n, n + 1]),
                 maxShard=rnd.choice([n, n + 1, n + 3, 9, 9, 9, max(1, n - 1)]),
-                maxIdle=rnd.choice([0, 1, 1]), noAlleviate=rnd.random() < 0.1)
+                maxIdle=maxIdle, noAlleviate=rnd.random() < 0.1)
+    if fam == 'scaledown':
+        opts['minShard'] = rnd.choice([0, 0, 1])
+        opts['maxShard'] = 9
+    allok = rnd.random() < (0.55 if fam != 'unsynced' else 0.0)
+    owner = {t: rnd.randrange(n) for t in targets}      # scaledown / relief: one holder per target
+    badpos, badmode = -1, 'ok'
+    if fam == 'scaledown' and rnd.random() < 0.5:
+        # exactly one shard that is not in sync, anywhere (also in front of the shards being emptied)
+        badpos, badmode = rnd.randrange(n), rnd.choice([m for m in MODES if m != 'ok'])
+        allok = True
+        owner = {t: rnd.choice([i for i in range(n) if i != badpos] or [0]) for t in targets}
+        if rnd.random() < 0.6:
+            owner = {t: n - 1 if n - 1 != badpos else max(0, n - 2) for t in targets}   # everything on the tail
     shards = []
-    allok = rnd.random() < 0.55
     for i in range(n):
-        mode = 'ok' if allok or rnd.random() < 0.6 else rnd.choice(MODES)
+        mode = 'ok' if allok or rnd.random() < (0.6 if fam != 'unsynced' else 0.4) else rnd.choice(MODES)
+        if i == badpos:
+            mode = badmode
         rep = []
         for t in targets:
-            if rnd.random() < 0.45:
-                rep.append(mk_entry(rnd, t, maxHead, maxProc))
+            if fam == 'scaledown':
+                if owner[t] == i and rnd.random() < 0.9:
+                    e = mk_entry(rnd, t, maxHead, maxProc)
+                    e.update(state='', health=rnd.choice(['up', 'up', 'up', 'down']), times=rnd.choice([3, 3, 4, 7, 2]),
+                             series=rnd.choice([0, 1, 2, 3]), total=0)
+                    e['total'] = e['series'] + rnd.choice([0, 0, 2, 5])
+                    rep.append(e)
+            elif fam == 'relief':
+                if owner[t] == i or rnd.random() < 0.1:
+                    e = mk_entry(rnd, t, maxHead, maxProc)
+                    e.update(state=rnd.choice(['', '', '', '', 'in_transfer']), health='up', times=rnd.choice([3, 4, 7, 7, 1]),
+                             series=rnd.choice([2, 3, 5, 6, 8, 9]))
+                    e['total'] = e['series'] + rnd.choice([0, 0, 3, 8, 12])
+                    rep.append(e)
+            elif fam == 'oversized':
+                if rnd.random() < 0.4:
+                    e = mk_entry(rnd, t, maxHead, maxProc)
+                    if rnd.random() < 0.6:
+                        e.update(series=rnd.choice([2, 5, 11, 12]), state='', health='up', times=rnd.choice([3, 7, 1]))
+                        e['total'] = rnd.choice([maxProc + 1, maxProc + 5, maxProc, e['series']])
+                        e['total'] = max(e['total'], e['series'])
+                    rep.append(e)
+            elif fam == 'handover':
+                if rnd.random() < 0.6:
+                    e = mk_entry(rnd, t, maxHead, maxProc)
+                    e.update(state=rnd.choice(['', 'in_transfer']), times=rnd.choice([0, 1, 2, 3, 3, 4]), health=rnd.choice(['up', 'up', 'down']),
+                             series=rnd.choice([1, 2, 3]), total=rnd.choice([3, 4]))
+                    rep.append(e)
+            else:
+                if rnd.random() < 0.45:
+                    rep.append(mk_entry(rnd, t, maxHead, maxProc))
         sseries = sum(e['series'] for e in rep)
         stotal = sum(e['total'] for e in rep)
         head = sseries + rnd.choice([0, 0, 0, 1, 2, 5, 9])      # head >= sum(series): sidecar floor
+        if fam == 'relief' and rnd.random() < 0.5:
+            head = sseries + rnd.choice([0, 4, 8, 12])
         proc = stotal                                            # process series = sum(total)
         if rnd.random() < 0.05:
             head = rnd.choice([0, 5, 11, 15, 19])               # stale / odd loads a coordinator may still see
@@ -54,18 +106,23 @@ def gen_input(rnd, idn, maxN=3, maxK=3):
         else:
             idle = rnd.choice(['fresh', 'expired', 'expired', 'none'])
         shards.append(dict(mode=mode, report=rep, head=head, proc=proc, idle=idle, postFail=rnd.random() < 0.08))
-    active = [t for t in targets if rnd.random() < 0.85]
+    active = [t for t in targets if rnd.random() < (0.85 if fam != 'scaledown' else 0.97)]
     explore = []
     for t in targets:
-        r = rnd.random()
-        if r < 0.75:
+        if rnd.random() < 0.75 or fam in ('scaledown', 'oversized'):
             e = mk_entry(rnd, t, maxHead, maxProc)
             e['state'] = ''
             e['times'] = 0
             if rnd.random() < 0.7:
                 e['health'] = 'up'
+            if fam == 'scaledown':
+                e.update(series=rnd.choice([1, 2, 3]), health='up')
+                e['total'] = e['series'] + rnd.choice([0, 2])
+            if fam == 'oversized' and rnd.random() < 0.6:
+                e.update(health='up', series=rnd.choice([1, 5, 8, 11, 12]))
+                e['total'] = max(e['series'], rnd.choice([maxProc + 1, maxProc + 3, maxProc, maxProc - 1]))
             explore.append(e)
-    return dict(id=idn, opts=opts, shards=shards, active=active, explore=explore,
+    return dict(id=idn, fam=fam, opts=opts, shards=shards, active=active, explore=explore,
                 failScale=rnd.choice([0, 0, 0, 0, 0, 0, 1, 2]))
 
 
@@ -119,6 +176,7 @@ def cfg_text(infile, outfile, consts, invariants):
               '  TooBigUsesTotal = %s' % consts['TooBigUsesTotal'],
               '  EarlyByShardCount = %s' % consts['EarlyByShardCount'],
               '  TailNeedsEmpty = %s' % consts['TailNeedsEmpty'],
+              '  TooBigFirst = %s' % consts['TooBigFirst'],
               '  InputSet <- Inputs',
               '  InFile = "%s"' % infile,
               '  OutFile = "%s"' % outfile,
@@ -134,7 +192,7 @@ def run_pipeline(tier, scratch, sizes=None, inputs=None, consts=None):
     rnd = random.Random(C.seed() * 7919 + (1 if tier == 'quick' else 2))
     if inputs is None:
         if tier == 'quick':
-            ngrid, nrand, reps, maxN, maxK = 400, 1200, 4, 3, 3
+            ngrid, nrand, reps, maxN, maxK = 400, 3000, 4, 3, 3
         else:
             ngrid, nrand, reps, maxN, maxK = None, 20000, 8, 4, 4
         if sizes:
